@@ -17,15 +17,19 @@ def gen_cases(seed, tier, n):
     out = []
     profs = ["default", "fifo_tiny", "fifo_steps", "free_overlap"]
     for i in range(n):
-        p = tracegen.PROFILES[profs[i % len(profs)]]
+        p = tracegen.bigvocab("default") if i % 12 == 7 else tracegen.PROFILES[profs[i % len(profs)]]
         c = tracegen.gen_case(seed, i, p)
         import random
         rng = random.Random(seed * 7919 + i)
         c["params"] = {"mem": rng.random() < 0.5}
+        if i % 5 == 3:
+            tracegen.lookalike_launch_names(c, rng)     # linked runtime calls whose names only contain a launch name
         if i % 3 == 1:
             tracegen.relabel_ranks(c)      # a subset of a job: rank ids are not 0..n-1, and not listed in order
         if i % 8 == 6:
             fw.set_quarter_us(c)           # quarter-microsecond resolution (framework.resolution)
+        if i % 16 == 11 and not c["params"].get("quarter_us"):
+            tracegen.scale_case(c, 10 ** 8)     # a long trace: sums beyond 2**24 and 2**31 (the models are homogeneous in time)
         out.append(c)
     return out
 
